@@ -105,12 +105,6 @@ def make_classes():
         def map_options(self):
             return {"mode": "unroll"}
 
-        def homotopy_options(self):
-            o = super().homotopy_options()
-            o.update(self._hopts)
-            o["homotopy_parameter"] = self._hname
-            return o
-
         def solver_options(self):
             o = super().solver_options()
             o["ipopt"]["print_level"] = 0
@@ -171,6 +165,12 @@ def make_classes():
 
     class SeedTap:
         """sits above HomotopyMixin: sees the seed the mixin hands to the transcription"""
+
+        def homotopy_options(self):
+            o = super().homotopy_options()
+            o.update(self._hopts)
+            o["homotopy_parameter"] = self._hname
+            return o
 
         def seed(self, ensemble_member):
             s = super().seed(ensemble_member)
